@@ -21,7 +21,7 @@ import (
 var c12Sched func(c *core.Ctx, nontriv *atomic.Int64) bool
 
 func init() {
-	core.Register(core.Check{ID: "C12", Level: "exploration", Run: func(c *core.Ctx) { runC12(c); reentrancyPass(c, "C12") }})
+	core.Register(core.Check{ID: "C12", Level: "exploration", Run: func(c *core.Ctx) { runC12(c); historyPass(c, "C12"); reentrancyPass(c, "C12") }})
 }
 
 var (
